@@ -20,3 +20,4 @@ open PgmVerif
 #print axioms PgmVerif.C04_divide_product_cancel
 #print axioms PgmVerif.C04_reduce_order_irrelevant
 #print axioms PgmVerif.C04_eliminate_set
+#print axioms PgmVerif.C04_normalize_sums_to_one
